@@ -46,6 +46,9 @@ UD = 'specifiers._AsForged.__get__'
 F_RESTORE = clause(UF, 'frame:attributes_restored', ['C16', 'C05', 'C06', 'C07'], 'P')      # the fallback reads __wrapped__ / __signature__ afterwards
 F_RAISES = clause(UF, 'raises:only_inspect_or_unknown', ['C07'], 'P')
 F_ASTPRE = clause(UF, 'pre:ast_is_function', ['C07'], 'P')
+F_STRIPPED = clause(UF, 'pre:own_signature_read_with_the_wrapper_attributes_stripped', ['C05', 'C06', 'C07'], 'P',
+                    'the signature paired with the function\'s own AST is the one of its def: when autoforwards_function asks inspect for it, '
+                    'neither __signature__ nor __wrapped__ is in the instance dict (whichever subset of the two the object carries)')
 F_UA = clause(UF, 'post:own_annotations_resolve_in_own_globals', ['C11'], 'P',
               'the signature handed to discovery carries, for every annotated parameter of the inspected function, a wrapper that denotes the annotation in THAT function\'s '
               'globals under ITS compilation mode - whatever the function it wraps (__wrapped__) looks like')
@@ -153,6 +156,8 @@ def make_runner(mode, shape=DEF_SHAPES[0], node='FunctionDef', kind='function', 
         env.pop('forger_returned_plain', None)
         env.pop('af_ast_returned', None)
         env.pop('kwonly_sig', None)
+        env.pop('own_signature_reads', None)
+        env['inside_af_function'] = mode == 'af_function'
         objs = []
         env['objs'] = objs
         env['ast_pre'] = []
@@ -169,6 +174,11 @@ def make_runner(mode, shape=DEF_SHAPES[0], node='FunctionDef', kind='function', 
         def external(interp_, name, args, kwpairs):
             if name == 'inspect.signature':
                 ctx.log('external-call', 'inspect.signature')
+                o = args[0] if args else None
+                if isinstance(o, SymObj) and env.get('inside_af_function'):
+                    # what inspect.signature would look at first: __signature__, then __wrapped__, in the instance dict
+                    seen = [a for a in ('__signature__', '__wrapped__') if a in o.slots and _dec_now(ctx, o.slots[a].inst)]
+                    env.setdefault('own_signature_reads', []).append((o, seen))
                 may_raise(interp_, 'inspect.signature', allowed=('TypeError', 'ValueError'))
                 return plain
             if name == 'inspect.getsource':
@@ -231,9 +241,9 @@ def make_runner(mode, shape=DEF_SHAPES[0], node='FunctionDef', kind='function', 
             gi = mk_sig(I, ctx, 'g', (0, 1, 0, 0, 0), tracked=False, annotations=False)
 
             def forger_behaviour(interp_, args, kwpairs):
-                if ctx.decide(z3.Bool('forger_returns_none')):
+                if choose('forger_returns_none'):
                     return None
-                if ctx.decide(z3.Bool('forger_returns_a_plain_inspect_signature')):
+                if choose('forger_returns_a_plain_inspect_signature'):
                     # a user-written forger may hand back what inspect.signature gave it
                     env['forger_returned_plain'] = world.plain_signature(I, gi)
                     return env['forger_returned_plain']
@@ -242,7 +252,7 @@ def make_runner(mode, shape=DEF_SHAPES[0], node='FunctionDef', kind='function', 
             forger = SymCallable('forger', forger_behaviour)
 
             def hint_behaviour(interp_, args, kwpairs):
-                if ctx.decide(z3.Bool('hint_returns_none')):
+                if choose('hint_returns_none'):
                     return None
                 # contract of a hint (modifiers._sigtools__autoforwards_hint): None or (function, its def node, signature);
                 # the function is the RAW one the hint-bearing wrapper was built around, not the inspected object
@@ -274,7 +284,7 @@ def make_runner(mode, shape=DEF_SHAPES[0], node='FunctionDef', kind='function', 
             env['hint_sig'] = mk_sig(I, ctx, 'h', (0, 1, 0, 0, 0), tracked=False, annotations=False).sig
             for o in objs:
                 o.snapshot()
-            auto = SymBool(z3.Bool('auto'))
+            auto = bool(variant['auto']) if 'auto' in variant else SymBool(z3.Bool('auto'))
             harness.run_unit(I, msp.ns['forged_signature'], [obj], [('auto', auto)], r)
         elif mode == 'af_ast':
             UFw = UF_cls
@@ -388,6 +398,10 @@ def make_runner(mode, shape=DEF_SHAPES[0], node='FunctionDef', kind='function', 
                 env['fw_calls'].append((list(args), dict((k, v) for k, v in kwpairs)))
                 if ctx.decide(ctx.fresh('forwards_incompatible', z3.BoolSort())):
                     raise I.make_exc(I.instantiate(ms.ns['IncompatibleSignatures'], [args[0], ()], []))
+                if ctx.decide(ctx.fresh('forwards_mask_impossible', z3.BoolSort())):
+                    # contract of forwards = embed o mask: the mask half raises a PLAIN ValueError when the callee cannot be
+                    # passed the arguments written in the call (C03 raises:only_if_impossible)
+                    raise PyExc(ValueError, ('Signature cannot be passed these arguments',))
                 res = Opaque('forwards result #%d' % len(env['fw_calls']))
                 env['fw_calls'][-1][1]['__result__'] = res
                 return res
@@ -461,10 +475,31 @@ def make_runner(mode, shape=DEF_SHAPES[0], node='FunctionDef', kind='function', 
                 class SuperObj:
                     def _vf_getattr(self, interp_, name):
                         return sup_target
+
+                class Attrs:
+                    def __init__(self, **kw):
+                        self.kw = kw
+
+                    def _vf_getattr(self, interp_, name):
+                        if name in self.kw:
+                            return self.kw[name]
+                        raise PyExc(AttributeError, (name,))
+                # the compiler gives a method that mentions super / __class__ a __class__ cell holding the DEFINING class;
+                # the declaration may name a class of its own (cls=...), which then is the one to start the lookup after
+                cell_cls, declared_cls = Opaque('the defining class (__class__ cell)'), Opaque('the class named in the declaration')
+                has_cell = ctx.decide(z3.Bool('method_has_a___class___cell'))
+                declared = ctx.decide(z3.Bool('declaration_names_a_class'))
+                obj.defaults['__code__'] = Attrs(co_freevars=('__class__',) if has_cell else ())
+                obj.defaults['__closure__'] = (Attrs(cell_contents=cell_cls),) if has_cell else None
+                env.update(cell_cls=cell_cls, declared_cls=declared_cls, has_cell=has_cell, declared=declared, super_calls=[])
+
+                def super_model(*a):
+                    env['super_calls'].append(a)
+                    return SuperObj()
                 real_super = I.builtins['super']
-                I.builtins['super'] = lambda *a: SuperObj()      # only for the duration of the unit
+                I.builtins['super'] = super_model      # only for the duration of the unit
                 try:
-                    harness.run_unit(I, spm.ns['forwards_to_super'], [1], [('obj', obj), ('cls', Opaque('cls')), ('use_varargs', False)], r)
+                    harness.run_unit(I, spm.ns['forwards_to_super'], [1], [('obj', obj), ('cls', declared_cls if declared else None), ('use_varargs', False)], r)
                 finally:
                     I.builtins['super'] = real_super
         elif mode == 'spec_forwards':
@@ -574,6 +609,9 @@ def vcs(env, want):
         if on(c_frame):
             for o in env['objs']:
                 out.append(VC(c_frame.full + ':' + o.label, [], o.frame_goal(), c_frame.props))
+        if on(F_STRIPPED) and mode == 'af_function':
+            for o, seen in env.get('own_signature_reads', []):
+                out.append(VC(F_STRIPPED.full + ':' + o.label, [], z3.BoolVal(not seen), F_STRIPPED.props))
         if on(F_ASTPRE):
             for n in env['ast_pre']:
                 ok = getattr(n, 'cls', None) in FUNCTION_NODES or not isinstance(n, SymNode)
@@ -584,6 +622,10 @@ def vcs(env, want):
             msig = I.module('sigtools._signatures')
             EmptyAnn = msig.ns['EmptyAnnotation']
             f, info = env['f'], env['def_info']
+            # stated for objects whose TYPE has no __wrapped__ of its own (functions): with one, inspect - and sigtools, which
+            # unwraps by the same rule - would read the signature of whatever the type-level attribute names
+            tw = f.slots['__wrapped__'].cls
+            no_type_level = [z3.Not(tw)] if not isinstance(tw, bool) else ([] if not tw else [z3.BoolVal(False)])
             for s_ in env['sigs_to_discovery']:
                 ps = s_._d['_parameters'].plist if isinstance(s_, Inst) and '_parameters' in s_._d else None
                 if ps is None or len(ps) != len(info.params):
@@ -593,7 +635,7 @@ def vcs(env, want):
                     raw = o._d['_annotation']
                     h, den = ua_denotes(p._d['upgraded_annotation'], EmptyAnn)
                     exp = z3.If(f.postponed, sym.EVALIN(raw.val, f.t), raw.val)
-                    out.append(VC(F_UA.full + ':%s' % o._d.get('_vf_tag', '?'), [], z3.And(h == raw.has, z3.Implies(raw.has, den == exp)), F_UA.props))
+                    out.append(VC(F_UA.full + ':%s' % o._d.get('_vf_tag', '?'), no_type_level, z3.And(h == raw.has, z3.Implies(raw.has, den == exp)), F_UA.props))
         return out
     if mode == 'af_function':
         if r.outcome == 'raise' and on(F_RAISES):
@@ -700,7 +742,14 @@ def vcs(env, want):
             bound = z3.And(obj.entry['__self__'][0] if not isinstance(obj.entry['__self__'][0], bool) else z3.BoolVal(obj.entry['__self__'][0]),
                            z3.BoolVal(s.v_inst is not None))
             rec = env['fwd_calls']
-            if r.outcome == 'raise':
+            if mode == 'fwd_super':
+                # the class the super() lookup starts after: the declared one when there is one, else the defining class
+                exp = env['declared_cls'] if env['declared'] else (env['cell_cls'] if env['has_cell'] else None)
+                for a in env['super_calls']:
+                    out.append(VC(c.full + ':super_of_the_declared_else_defining_class', [], z3.BoolVal(len(a) == 2 and a[0] is exp and a[1] is env['inst']), c.props))
+            if r.outcome == 'raise' and mode == 'fwd_super' and not env['declared'] and not env['has_cell']:
+                out.append(VC(c.full + ':ValueError_when_no_class_is_known', [], z3.BoolVal(r.exc.typ is ValueError), c.props))
+            elif r.outcome == 'raise':
                 out.append(VC(c.full + ':no_exception:' + r.exc.typname, [], z3.BoolVal(False), c.props))
             elif r.value is None:
                 out.append(VC(c.full + ':None_only_when_unbound', [], z3.Not(bound), c.props))
@@ -819,6 +868,10 @@ def recursion_cases():
         except Exception as e:
             out.append((name, False, 'sigtools.signature(%s) raises %r' % (name, e)))
     return out
+
+
+def _dec_now(ctx, x):
+    return x if isinstance(x, bool) else ctx.decide(x)
 
 
 def _mb(model, t):
